@@ -405,7 +405,46 @@ def rule_r9(p, res):
 # rules of sibling properties over code paths this property's statement also quantifies over (DESIGN.md section 3, shared rules)
 ALSO = ['C06.R2', 'C20.R6']
 
-RULES = [rule_r1, rule_r2, rule_r3, rule_r4, rule_r5, rule_r6, rule_r7, rule_r8, rule_r9]
+def rule_r10(p, res):
+    r = res.rule("C05.R10", "a parameter vector installed as the matrix with the checks switched off is reshaped to a fully determined shape: no -1 wildcard "
+                 "that would let a wrong-length vector through as a malformed matrix")
+    n_sites = 0
+    for f in sorted(p.all_functions(), key=lambda x: x.qualname):
+        if not f.module.name.startswith("menpo.transform.") or "/test/" in f.module.relpath:
+            continue
+        locs = {}
+        for n in walk_own(f.node):
+            if isinstance(n, ast.Assign) and len(n.targets) == 1 and isinstance(n.targets[0], ast.Name):
+                locs.setdefault(n.targets[0].id, []).append(n.value)
+        for k in calls_in(f.node):
+            if not (isinstance(k.func, ast.Attribute) and k.func.attr in ("_set_h_matrix", "set_h_matrix") and k.args):
+                continue
+            sc = kwarg(k, "skip_checks")
+            if not (isinstance(sc, ast.Constant) and sc.value is True):
+                continue
+            todo, seen, exprs = [k.args[0]], set(), []
+            while todo:
+                e = todo.pop()
+                exprs.append(e)
+                for n in ast.walk(e):
+                    if isinstance(n, ast.Name) and n.id not in seen:
+                        seen.add(n.id)
+                        todo.extend(locs.get(n.id, ()))
+            for e in exprs:
+                for n in ast.walk(e):
+                    if isinstance(n, ast.Call) and ((isinstance(n.func, ast.Attribute) and n.func.attr == "reshape") or (dotted(n.func) or "") == "np.reshape"):
+                        n_sites += 1
+                        r.instance("%s: %s" % (f.short, norm(n)[:70]))
+                        shape_args = n.args[1:] if (dotted(n.func) or "") == "np.reshape" else n.args
+                        wild = [c for a in shape_args for c in ast.walk(a)
+                                if isinstance(c, ast.UnaryOp) and isinstance(c.op, ast.USub) and isinstance(c.operand, ast.Constant) and c.operand.value == 1]
+                        r.check(not wild, f, n, "%s reshapes the parameter vector with a -1 wildcard and installs it with skip_checks=True: a vector of the wrong length "
+                                "no longer raises but yields a non-square matrix whose apply / pseudoinverse / compose then fail" % f.short)
+    if n_sites < 1:
+        raise AnalysisError("C05.R10: no unchecked matrix installation from a reshaped vector found (Homogeneous._from_vector_inplace expected)")
+
+
+RULES = [rule_r1, rule_r2, rule_r3, rule_r4, rule_r5, rule_r6, rule_r7, rule_r8, rule_r9, rule_r10]
 
 WITNESSES = [
     Witness("C05.W1", "menpo/transform/homogeneous/similarity.py", "Similarity._from_vector_inplace",
@@ -446,4 +485,9 @@ WITNESSES += [
             rule="C05.G6", construct="_from_vector_inplace", note="seeded change R5-C05-B (generic: whole-buffer overwrite)"),
     Witness("C05.W15", "menpo/transform/homogeneous/rotation.py", "AlignmentRotation.set_rotation_matrix", "self._sync_target_from_state()", "if not skip_checks:\n        self._sync_target_from_state()",
             rule="C05.G9", construct="set_rotation_matrix", note="seeded change R5-C05-A (generic: unconditional call made conditional)"),
+]
+
+WITNESSES += [
+    Witness("C05.W_R10", "menpo/transform/homogeneous/base.py", "Homogeneous._from_vector_inplace", "vector.reshape(self.h_matrix.shape)", "vector.reshape((self.n_dims_output + 1, -1))",
+            rule="C05.R10", construct="_from_vector_inplace", note="seeded change R4-C05-C (wrong-length vector accepted as a non-square matrix)"),
 ]
